@@ -34,7 +34,9 @@ def key_value(rng, safe=False):
     if r < 0.57:
         return "4,%d" % rng.choice([-3, -1, 1, 2, -9223372036854775807])
     if r < 0.75:
-        return "5,%d" % rng.choice([10, 4, 8, -12, 1, 3, -3, 0, 402])
+        # reals in 256ths: 1, 2, 2.5 and -3 collide with integer / string keys; 1.125 vs 1.12890625,
+        # 1 vs 1.00390625 vs 1.0078125 and 0.125 vs 0.1328125 differ only beyond the second decimal
+        return "5,%d" % rng.choice([256, 512, 640, -768, 0, 288, 289, 257, 258, 2, 32, 34, 25728, -288, -289, 64, 192, 100 * 256 + 1])
     if r < 0.85:
         return "1"
     if r < 0.93:
@@ -143,7 +145,7 @@ def check(tier):
     return c12.run_check(
         PROP, PROP_V, tier, gen_cases,
         "Value::GroupBy / <loop group=> differs from partition_by_key (distinct textual key values in first-appearance order, stable groups, key erased, other members unchanged, source unchanged)",
-        "seeded arrays of 0..10 records of 0..6 members built through the public API, grouping key at a random member position with values of every scalar kind (strings, unsigned, signed, exact-quarter reals, booleans, null; colliding texts across kinds), removed (tombstone) and undefined members, nested members, records moved or copied into the array; GroupBy result tree, ok flag, source array, typed reads and the rendered <loop value=g group=K> output are compared; half of the cases use arbitrary keys (empty, NUL, quote) and broken inputs (missing key, non-object element, empty array)",
+        "seeded arrays of 0..10 records of 0..6 members built through the public API, grouping key at a random member position with values of every scalar kind (strings, unsigned, signed, reals that are exact dyadics with at most 8 fraction bits (k/4 ... k/256, e.g. 1.125 next to 1.12890625 and 1 next to 1.00390625, so that a group name printed with fewer digits merges groups), booleans, null; colliding texts across kinds), removed (tombstone) and undefined members, nested members, records moved or copied into the array; GroupBy result tree, ok flag, source array, typed reads and the rendered <loop value=g group=K> output are compared; half of the cases use arbitrary keys (empty, NUL, quote) and broken inputs (missing key, non-object element, empty array)",
         extra_assumptions=["rendered cases keep member values to integers, keywords and alphanumeric strings (real formatting inside {var:} and HTML escaping are C02/C03/C10's subject)"])
 
 
